@@ -146,6 +146,8 @@ func HostileString(t *rapid.T, label string) string {
 	if rapid.IntRange(0, 14).Draw(t, label+"-lookalike") == 0 {
 		return rapid.SampledFrom([]string{
 			`\u003c`, `a\u0026b`, `C:\u003edir`, `\n`, `\"`, `%41`, `%zz`, `&amp;`, `\/`, `\\`, `\u00e9`, `+`, `%2B`, `&#39;`,
+			// ... or like what Go prints for values that are not strings
+			`<nil>`, `null`, `[]`, `map[]`, `<invalid Value>`, `%!s(<nil>)`, `true`, `0`,
 		}).Draw(t, label+"-lookalike-text")
 	}
 
